@@ -265,7 +265,8 @@ class Model:
         if k == "safelong":
             return [0, 2**53 - 1, -(2**53 - 1)]
         if k == "double":
-            return [0.5, 1e300, "NaN", "Infinity", "-Infinity", 1]
+            # incl. doubles whose decimal text needs correctly rounded parsing
+            return [0.5, 1e300, "NaN", "Infinity", "-Infinity", 1, 1.0715660391465826e-75, -1.603964615428183e143, 5e-324, 0.1]
         if k == "uuid":
             return ["01234567-89ab-cdef-fedc-ba9876543210", "00000000-0000-0000-0000-000000000000"]
         if k == "rid":
